@@ -89,3 +89,18 @@ Definition chk_row (P : chunked) (L : lcol) (m : res lrow) (sp : res lrow) (impl
 (* a value offered as rows, ragged or not: the physical validity of everything born *)
 Definition all_wf (ps : list chunked) : bool := forallb wf_b ps.
 Definition all_wf_rect (ps : list chunked) : bool := forallb wf_rect_b ps.
+
+(* ---------- C19: Arrow interchange ---------- *)
+(* export to the list-of-structs orientation: per row the records, columnar *)
+Definition chk_ls_export (P : chunked) (L : lcol) (impl : res lrows) : list bool :=
+  [ res_eqb lrows_eqb (m_list_struct_rows P) impl;
+    res_eqb lrows_eqb (Ok (rows_of L)) impl;
+    true;
+    lcol_eqb (abs P) L ].
+
+(* import from the list-of-structs orientation *)
+Definition chk_ls_import (sch : schema) (A : list lsarr) (expect : lcol) (impl : res lcol) (P' : option chunked) : list bool :=
+  [ res_eqb lcol_eqb (res_map abs (m_init_from_ls sch A)) impl;
+    res_eqb lcol_eqb (Ok expect) impl;
+    match P' with Some q => wf_b q | None => true end;
+    match P', impl with Some q, Ok l' => lcol_eqb (abs q) l' | _, _ => true end ].
